@@ -662,7 +662,7 @@ def run(ctx, report):
     c01.pubkey_rule(ctx, Only(report, {"PUBKEY": "PUBKEY"}))
     # "a valid signature": the gate compares against rlp_content(); a valid record is accepted only if that is
     # the EIP-778 content encoding [seq, k, v, ...] with a correct list header
-    c01._own_run(ctx, Only(report, {"PAYLOAD": "PAYLOAD"}))
+    c01._own_run(ctx, Only(report, {"PAYLOAD": "PAYLOAD", "NOLAUNDER": "NOLAUNDER", "VERIFYV4": "VERIFYV4"}))
     # the outcome of a call is decided by its arguments: no static carries state from one call to the next
     from rules.purity import hidden_state
     hidden_state(ctx, report)
